@@ -54,6 +54,8 @@ func (r *Recorder) BuildReport(now time.Time, maxSize int) *rtcp.CCFeedbackRepor
 	}
 	maxReportBlocks := max((maxSize-12-(8*streamCount))/2, 0)
 	maxReportBlocksPerStream := maxReportBlocks / streamCount
+	// Report blocks are padded to a multiple of 32 bits (two metric blocks).
+	maxReportBlocksPerStream -= maxReportBlocksPerStream % 2
 
 	for _, log := range r.streams {
 		block := log.metricsAfter(now, int64(maxReportBlocksPerStream))
